@@ -36,9 +36,12 @@ fn main() {
             std::process::exit(2);
         }
     }
+    let only: Option<usize> = args.iter().position(|a| a == "--only").and_then(|i| args.get(i + 1)).and_then(|s| s.parse().ok());
     let stdout = std::io::stdout();
     let mut w = std::io::BufWriter::new(stdout.lock());
-    for l in &ctx.out {
-        writeln!(w, "{}", l).unwrap();
+    for (i, l) in ctx.out.iter().enumerate() {
+        if only.map_or(true, |o| o == i) {
+            writeln!(w, "{}", l).unwrap();
+        }
     }
 }
